@@ -1027,11 +1027,9 @@ push_expansion(const string &input, const CPPManifest *manifest, const YYLTYPE &
     infile->_col_number = loc.first_column;
     infile->_lock_position = true;
 
-    if (!manifest->_has_parameters) {
-      // If the manifest does not use arguments, then disallow recursive
-      // expansion.
-      infile->_ignore_manifest = true;
-    }
+    // A manifest is not expanded again while its own replacement list is
+    // being rescanned.
+    infile->_ignore_manifest = true;
 
     infile->_prev_last_c = _last_c;
     infile->_parent = _infile;
